@@ -1,18 +1,18 @@
-\* context lifecycle focus (C07): persistent context, register/deregister/finalize/loop from top level and callbacks
+\* as ctx, with module names that share a bucket of the context table (C07, C05): the table is a chain visited in registration order; teardown and evaluation passes remove entries from the chain they iterate
 CONSTANTS
   Mods = {"A", "B"}
   Order <- Order2
-  Collide = FALSE
+  Collide = TRUE
   Hooks <- Hooks_ctx
   Flags <- Flags_none
-  CtxPersist = TRUE
+  CtxPersist = FALSE
   Topics = {"t1"}
   Pats = {"t1"}
   MaxPay = 1
   Cap = 2
   MaxNest = 1
   Ops = {"CtxRegister", "CtxDeregister", "CtxFinalize", "Dispatch", "CtxQuit", "ModRegister", "ModDeregister", "ModStart", "ModPause", "ModStop", "DropRef", "Tell"}
-  CbOps = {"CtxDeregister", "CtxFinalize", "CtxQuit", "ModRegister", "ModDeregister", "ModStart"}
+  CbOps = {"CtxDeregister", "CtxFinalize", "CtxQuit", "ModDeregister", "ModStart"}
   EvalVals = {TRUE, FALSE}
   Prios = {"N"}
   BatchSizes = {}
